@@ -412,6 +412,20 @@ def run(case):
                         for kwx in ({"elements_to_ignore": [list(e)]}, {"error_scaling": [[list(e), 0]]}):
                             o = drivers.observe(dict(pin, cls=cls, kw=dict(kwx, k=k, weight_type=wt)))
                             res.append(("exc", o["exc_type"]) if o["exc"] else (("solved", round(float(o["obj"]), 5)) if o["solved"] else ("unsolved",)))
+                        if cyc and wt == "int":
+                            # the same equivalence with the safe-sequence optimisation fed by a percentile of the flow values: an arc that is out
+                            # of the model (either way) must not be trusted either - the removed arc is made the heaviest one, k = width + 1
+                            heavy = dict(pin, arcs=[[a[0], a[1], (a[2] + 50 if (a[0], a[1]) == e else a[2])] for a in pin["arcs"]])
+                            for kk in sorted({k, w + 1}):
+                                rp = []
+                                for kwx in ({"elements_to_ignore": [list(e)]}, {"error_scaling": [[list(e), 0]]}):
+                                    o = drivers.observe(dict(heavy, cls=cls, kw=dict(kwx, k=kk, weight_type=wt, trusted_edges_for_safety_percentile=0)))
+                                    rp.append(("exc", o["exc_type"]) if o["exc"] else (("solved", round(float(o["obj"]), 5)) if o["solved"] else ("unsolved",)))
+                                tags["ignore_vs_scale0_trusted_percentile"] += 1
+                                if rp[0] != rp[1]:
+                                    viol.append({"kind": "ignore_differs_from_scale0", "msg": f"{cls}({wt}, k={kk}, trusted_edges_for_safety_percentile=0) on {heavy['arcs']}: elements_to_ignore=[{e}] gives {rp[0]}, error_scaling={{{e}: 0}} gives {rp[1]}"})
+                                elif rp[0][0] == "solved":
+                                    nt.append(f"{key}|{cls}|{wt}|{e}|pct|{kk}")
                     tags["ignore_vs_scale0"] += 1
                     if res[0] != res[1]:
                         viol.append({"kind": "ignore_differs_from_scale0", "msg": f"{cls}({wt}) on {pin['arcs']}: elements_to_ignore=[{e}] gives {res[0]}, error_scaling={{{e}: 0}} gives {res[1]}"})
